@@ -6,6 +6,6 @@ CONSTANTS
   Placement = "by_tag"
   NCases = 0
 INIT SimInit
-NEXT SchedNext
-INVARIANT EmitSched
+NEXT SimNext
+INVARIANT EmitSim
 INVARIANT Correct
